@@ -124,6 +124,40 @@ template<class N, class T, class U>
             check("ge", true, [](auto x, auto y) { return x >= y; });
             check("eq", true, [](auto x, auto y) { return x == y; });
             check("ne", true, [](auto x, auto y) { return x != y; });
+            // one operand left as a bare built-in (either side): still the built-in result
+            auto check_mixed = [&](const char* op, bool defined, auto&& f) {
+                if (!defined) {
+                    vf::skip_pre();
+                    return;
+                }
+                auto expect = f(a, b);
+                auto one = [&](const char* side, auto&& g) {
+                    if constexpr (requires { unwrap_all(g()); }) {
+                        using G = decltype(unwrap_all(g()));
+                        G got{};
+                        vf::Outcome o = vf::run([&] { got = unwrap_all(g()); });
+                        vf::validated();
+                        if (!o.ok() || Big(got) != Big(expect)) {
+                            vf::outcome(o.ok() ? "wrong_value" : o.str());
+                            vf::violation(std::string(op) + "/" + side + "/" + (o.ok() ? "value" : o.str()), id(), id() + " " + op + " (" + side + "): got " + (o.ok() ? vf::to_s(got) : o.str()) + ", built-in gives " + vf::to_s(expect));
+                        } else
+                            vf::outcome(std::string("ok_") + op + "_" + side);
+                    } else
+                        vf::outcome(std::string("unsupported_") + op + "_" + side);
+                };
+                one("builtin_right", [&] { return f(WT(a), b); });
+                one("builtin_left", [&] { return f(a, WU(b)); });
+            };
+            check_mixed("add", fitsP(Ap + Bp), [](auto x, auto y) { return x + y; });
+            check_mixed("sub", fitsP(Ap - Bp), [](auto x, auto y) { return x - y; });
+            check_mixed("mul", fitsP(Ap * Bp), [](auto x, auto y) { return x * y; });
+            check_mixed("div", div_ok, [](auto x, auto y) { return x / y; });
+            check_mixed("lt", true, [](auto x, auto y) { return x < y; });
+            check_mixed("le", true, [](auto x, auto y) { return x <= y; });
+            check_mixed("gt", true, [](auto x, auto y) { return x > y; });
+            check_mixed("ge", true, [](auto x, auto y) { return x >= y; });
+            check_mixed("eq", true, [](auto x, auto y) { return x == y; });
+            check_mixed("ne", true, [](auto x, auto y) { return x != y; });
             // shifts: wrapped lhs, built-in count
             auto check_shift = [&](const char* op, bool defined, auto&& f) {
                 if (!defined) {
